@@ -291,6 +291,11 @@ def body_tables(case):
             got = r.meta[hit[0]]
             if isinstance(val, (np.generic,)):
                 val = val.item()
+            if isinstance(val, float) and len(repr(val)) > 20:
+                # astropy allots 20 characters to a numeric card value: a result with 17 significant digits and a
+                # leading '0.000' loses its last digits (limit of the FITS fixed-format value field)
+                require(isinstance(got, float) and abs(got - val) <= 1e-14 * abs(val), f"header value {key!r} reads back as {got!r}, written {val!r}")
+                continue
             require(_same_header_value(val, got), f"header value {key!r} reads back as {got!r}, written {val!r}")
         check_header(r.meta, conf, "results file of a run")
         with quiet():
